@@ -8,6 +8,10 @@ func GenDescs(r *gen.Rand, max int) []Desc {
 	var ds []Desc
 	for i := r.Intn(max + 1); i > 0; i-- {
 		d := Desc{Tag: r.PickByte([]byte{0x05, 0x0a, 0x0e, 0x52, 0x7f, 0xe9, 0xcc, 0x09, 0x28, 0xb0, 0x97, 0x02, 0x03, 0x0b, 0x0c, 0x0d, 0x81, 0xfe})}
+		if r.Chance(6) {
+			// any of the 256 tag values, the ends of the range more often: descriptor_tag is an 8-bit field
+			d.Tag = r.PickByte([]byte{0x00, 0xff, 0xff, 0x01, 0x7e, 0x80, byte(r.Intn(256)), byte(r.Intn(256)), byte(r.Intn(256))})
+		}
 		n := r.Intn(12)
 		switch d.Tag {
 		case 0x05:
